@@ -167,6 +167,14 @@ def enumerated(tier):
         lo, hi, mmin, mmax = f(lo), f(hi), f(mmin), f(mmax)
       yield {'k': 'in_range_typed', 't': t,
              'lim': [lo, hi, mmin, mmax]}
+  # typed limits given as numbers which the declared type changes (int
+  # truncates, 'milli' divides by 1000)
+  for t, tup in [('int', (0.5, 10.7, None, None)), ('int', (0.5, 10.9, None, 8.9)),
+                 ('int', (-3.9, 3.9, -2.5, 2.5)), ('int', (2.2, None, None, None)),
+                 ('milli', (3200, 3400, None, None)),
+                 ('milli', (3200, 3400, 3250, 3350)),
+                 ('milli', (None, 500, None, 400)), ('float', (3, 7, 4, 6))]:
+    yield {'k': 'in_range_typed', 't': t, 'lim': list(tup)}
   # equals / all_equals on numbers
   for v in lims:
     yield {'k': 'equals_num', 'v': enc(v)}
@@ -310,6 +318,11 @@ def ctor_expect(lo, hi, mmin, mmax):
   return None
 
 
+def milli(x):
+  """A declared limit type that rescales (millivolt -> volt)."""
+  return Fraction(x) / 1000 if not isinstance(x, float) else x / 1000.0
+
+
 def run_in_range(ctx, V, cls_name, lims, build, probes, listy=False):
   lo, hi, mmin, mmax = lims
   exp = ctor_expect(lo, hi, mmin, mmax)
@@ -421,7 +434,7 @@ def run_case(case):
                         probe=repr(p), ref=repr(a), der=repr(b))
                 break
   elif k == 'in_range_typed':
-    t = {'int': int, 'float': float}[case['t']]
+    t = {'int': int, 'float': float, 'milli': milli}[case['t']]
     raw = case['lim']
     lims = [None if x is None else t(x) for x in raw]
     probes = probes_for(lims)
